@@ -298,6 +298,33 @@ pub fn g1_edge_points() -> &'static Vec<(String, BigUint, BigUint)> {
     })
 }
 
+/// Identities as applications write them — names, mailbox-style strings in several capitalisations, non-ASCII text, strings with blanks at the edges:
+/// a pseudo-random byte string never contains '@', a case variant of itself or a trimmed form. Selected by lengths of STRUCTURED_ID and up.
+pub const STRUCTURED_ID: usize = 1 << 40;
+
+pub fn structured_identities() -> &'static [&'static str] {
+    &["Alice", "Bob", "alice", "ALICE", "alice@example.com", "Alice@Example.COM", "alice@EXAMPLE.com", "ALICE123@YAHOO.COM", "alice123@yahoo.com", "bob@qq.com", "Bob@QQ.com",
+      "a@b", "a@B", "@", "user@host@Domain.ORG", "\u{7528}\u{6237}\u{7532}@\u{4f8b}\u{5b50}.CN", "\u{c9}milie", "\u{e9}milie", " alice", "alice ", "alice\n", "node-2", "node", "NODE-2", "0", "00", ""]
+}
+
+/// The identity for (seed, len): pseudo-random bytes of that length, or entry (len - STRUCTURED_ID) of the structured list.
+pub fn identity(seed: u64, len: usize) -> Vec<u8> {
+    if len >= STRUCTURED_ID {
+        let l = structured_identities();
+        l[(len - STRUCTURED_ID) % l.len()].as_bytes().to_vec()
+    } else {
+        crate::engine::expand_bytes(seed, len)
+    }
+}
+
+/// The same identity with the case of every ASCII letter swapped (None when it has no ASCII letter): a different byte string, hence another identity.
+pub fn case_variant(id: &[u8]) -> Option<Vec<u8>> {
+    if !id.iter().any(|b| b.is_ascii_alphabetic()) {
+        return None;
+    }
+    Some(id.iter().map(|b| if b.is_ascii_lowercase() { b.to_ascii_uppercase() } else if b.is_ascii_uppercase() { b.to_ascii_lowercase() } else { *b }).collect())
+}
+
 /// Field elements x of the SM9 base field for which x, x^2 or x^3 has a Montgomery image within a few units of 0 or p, or equal to a power of two / 2^256 - p.
 pub fn mont_edge_abscissas() -> &'static Vec<(String, BigUint)> {
     use std::sync::OnceLock;
